@@ -5,5 +5,6 @@ cd "$(dirname "$0")"
 export GOFLAGS=-mod=mod GOPROXY=off GOSUMDB=off GOTOOLCHAIN=local
 mkdir -p bin .work evidence replays
 (cd sim && go1.26.8 build -o ../bin/vcheck ./cmd/vcheck)
+(cd sim && go1.26.8 test -count=1 ./model >/dev/null) || { echo "model self-test failed"; exit 1; }
 ./bin/vcheck build plain race yield
 echo "setup ok"
